@@ -88,6 +88,8 @@ def par_elast(p: dict, st: dict, inhib: bool, normalized: bool) -> dict:
         "kin": {"vin": 1.0, "v1": 0.0, "v2": 0.0}, "k1": {"vin": 0.0, "v1": 1.0, "v2": 0.0}, "k2": {"vin": 0.0, "v1": 0.0, "v2": 1.0},
         "a": {"vin": 0.0, "v1": p["a"] * math.log(st["x"]), "v2": 0.0}, "b": {"vin": 0.0, "v1": 0.0, "v2": p["b"] * math.log(st["y"])},
     }
+    if inhib:
+        e["ni"] = {"vin": 0.0, "v1": p["ni"] * math.log(st["y"]), "v2": 0.0}  # a parameter with a negative value
     if normalized:
         return e
     return {q: {r: e[q][r] * f[r] / p[q] for r in f} for q in e}
@@ -166,7 +168,7 @@ def run_case(case: dict) -> dict:
     model = rm.build(net["spec"])
     p, inhib = net["params"], net.get("inhib", False)
     viols: list[dict] = []
-    counters: dict[str, int] = {f"part:{case['part']}": 1, "default_state_defined_by_an_initial_assignment_on_scanned_parameters": int(ia_start)}
+    counters: dict[str, int] = {f"part:{case['part']}": 1, "parameter_with_negative_value_scanned": int(case["part"] == "elasticities" and net.get("inhib", False)), "default_state_defined_by_an_initial_assignment_on_scanned_parameters": int(ia_start)}
     ctx = {"params": p, "y0": net["y0"], "inhibition": inhib}
     before = snapshot(model)
 
@@ -193,7 +195,8 @@ def run_case(case: dict) -> dict:
                     if list(ve.columns) != ["y"]:
                         viols.append(core.viol("to_scan subset not respected", None, columns=list(ve.columns), **ctx))
                 viols += cmp_table(ve, exp, 1e-6, "variable elasticity differs from the analytic partial derivative / kinetic order", {"normalized": normalized, "state": st, **ctx})
-                scan = rng.sample(["kin", "k1", "k2", "a", "b"], rng.randint(1, 5)) if sub else ["kin", "k1", "k2", "a", "b"]
+                allp = ["kin", "k1", "k2", "a", "b"] + (["ni"] if inhib else [])
+                scan = rng.sample(allp, rng.randint(1, len(allp))) if sub else allp
                 pe = mca.parameter_elasticities(model, variables=st if given else None, normalized=normalized, to_scan=scan)
                 untouched("parameter_elasticities")
                 exp = {q: v for q, v in par_elast(p, st, inhib, normalized).items() if q in scan}
